@@ -334,7 +334,8 @@ theorem subMulExt_ok_partial {t : IntTy} {π : Policy} (w : t.WF π) (hl : t.Lar
     (hpre : π.checkInfSubInf = true ∨
       ¬ ((t.denote π to0 = .minf ∧ Ext.mulI (t.denote π x) (t.denote π y) = .minf) ∨
          (t.denote π to0 = .pinf ∧ Ext.mulI (t.denote π x) (t.denote π y) = .pinf)))
-    (side : π.hasNan = true ∨ t.signed = false ∨ ¬ (to0 = 0 ∧ x * y = t.emax π + 1)) :
+    (side : t.finite π to0 → t.finite π x → t.finite π y →
+      (π.hasNan = true ∨ t.signed = false ∨ ¬ (to0 = 0 ∧ x * y = t.emax π + 1))) :
     OK t π dir (subMulExt t π to0 x y dir) (Ext.subI (t.denote π to0) (Ext.mulI (t.denote π x) (t.denote π y))) := by
   unfold Ext.subI
   unfold subMulExt
@@ -360,7 +361,7 @@ theorem subMulExt_ok_partial {t : IntTy} {π : Policy} (w : t.WF π) (hl : t.Lar
       · simp only [b, if_true, d, Ext.addI]; exact okMinf w dir h0
       · simp only [b, c, Bool.false_eq_true, if_false, if_true, d, Ext.addI]; exact okPinf w dir h0
       · simp only [b, c, Bool.false_eq_true, if_false, d, Ext.addI]
-        have := subMul_ok_partial w hl hco dir f fx fy side
+        have := subMul_ok_partial w hl hco dir f fx fy (side f fx fy)
         simpa [Int.sub_eq_add_neg] using this
     · rw [e, hm]
       rw [hm] at hpre
